@@ -5,7 +5,10 @@ protocol lines. One line = one complete case:
   run max=<n> pol=lru|fifo pre=<ops> t=<ops>|<ops>[|<ops>] s=<digits>
 
 <ops> = `-` or comma-separated: g<k> get, c<k> contains, r<k> remove, z clear,
-p<k>:<hex> put (long TTL), x<k>:<hex> put_with_ttl whose TTL is over at the next access.
+p<k>:<hex> put (long TTL), x<k>:<hex> put_with_ttl whose TTL is over at the next access,
+w<digits> one tick of the background cleanup task of `new_with_cleanup` (`Op.sweep`; the digits
+= the keys in the order the real map iteration handed them out, which only orders the expired
+keys the model finds itself; sites u / v / w = before remove_if / entry_count / memory_usage).
 `pre` runs alone before the threads exist; `s` is the schedule (thread index per step; an entry
 naming a finished thread is skipped); when it ends early the lowest-numbered unfinished thread
 runs until all have finished.  Answer:
@@ -50,6 +53,11 @@ def parseOp (t : String) : Option Op :=
   | 'c' :: r => (String.ofList r).toNat?.map .contains
   | 'r' :: r => (String.ofList r).toNat?.map .remove
   | ['z'] => some .clear
+  | 'w' :: r =>
+    -- one tick of the cleanup task; the digits are the order in which the map iteration of
+    -- the real run handed out the keys it collected
+    if r.all (fun c => decide ('0' ≤ c ∧ c ≤ '9')) then some (.sweep (r.map (fun c => c.toNat - '0'.toNat)))
+    else none
   | c :: r =>
     if c = 'p' ∨ c = 'x' then
       match (String.ofList r).splitOn ":" with
@@ -240,7 +248,9 @@ def handle (toks : List String) : String :=
       match policy with
       | none => "bad-op"
       | some policy =>
-      if mx = 0 ∨ progs.length > 9 then "bad-op" else
+      -- one cleanup task per cache: sweeps are the operations of at most one thread
+      let isSweep : Op → Bool := fun op => match op with | .sweep _ => true | _ => false
+      if mx = 0 ∨ progs.length > 9 ∨ (progs.filter (·.any isSweep)).length > 1 then "bad-op" else
       let cfg : MemCache.Config := { maxEntries := mx, maxBytes := none, policy := policy, defaultShort := false }
       let m := machine cfg (detVic cfg)
       -- the operations of `pre` run alone, to completion
